@@ -7,7 +7,7 @@ from lib.coqterm import cbool, cbytes, clist, cN
 
 ID = "C03"
 QUICK_N = 1500
-THOROUGH_N = 26000
+THOROUGH_N = 12000
 SHARD = 150
 RULE = ("A case is a schedule of operations on one client connection of a real HttpLayer(regular mode) driven by "
         "harness/lib/sansio.py: client/server data segments made of HTTP/1 tokens (heads, body pieces, chunk ends, malformed "
